@@ -555,7 +555,7 @@ Section Scheme.
     rewrite S in S'. injection S' as S'. rewrite <- S' in E.
     destruct (sign_inj _ _ _ _ _ IS _ _ _ _ E) as [P M]. split; congruence.
   Qed.
-End Scheme.
+
 
 
 (* ------------------------------------------------------------------------------------ *)
@@ -636,3 +636,86 @@ Proof.
   rewrite <- (traverse_keys decode_sig inner innerd DI).
   eapply assoc_last_in_keys. exact K.
 Qed.
+
+  (* ---- the forms stated in Props/C02.v ---- *)
+  Lemma sign_none_iff name kid k m : sign_value name kid k (JObj m) = None <-> sigs_of m = None.
+  Proof. rewrite sign_value_obj. destruct (sigs_of m); split; congruence. Qed.
+
+  Lemma more_signers_verify name kid k m o more :
+    sign_value name kid k (JObj m) = Some o ->
+    Forall (fun s : signer => (fst (fst s), snd (fst s)) <> (name, kid)) more ->
+    exists o', sign_all more o = Some o' /\ verify_value name kid (pub k) o' = true.
+  Proof.
+    intros S F.
+    destruct (sign_value_result_is_object _ _ _ _ _ S) as [m' [-> [sm Sm]]].
+    destruct (sign_all_total more m' sm Sm) as [o' A].
+    exists o'. split; [exact A|].
+    rewrite (verify_after_more_signers more name kid (pub k) m' o' F A).
+    eapply sign_then_verify_value; eauto.
+  Qed.
+
+  Lemma unsigned_change_verify name kid k m m1 :
+    sign_value name kid k (JObj m) = Some (JObj m1) ->
+    (forall u, verify_value name kid (pub k) (jset k_unsigned u (JObj m1)) = true) /\
+    verify_value name kid (pub k) (jdel k_unsigned (JObj m1)) = true /\
+    (forall m2, assoc_last k_signatures m2 = assoc_last k_signatures m1 ->
+                strip_members m2 = strip_members m1 ->
+                verify_value name kid (pub k) (JObj m2) = true).
+  Proof.
+    intro S.
+    assert (G : forall m2, assoc_last k_signatures m2 = assoc_last k_signatures m1 ->
+                strip_members m2 = strip_members m1 ->
+                verify_value name kid (pub k) (JObj m2) = true).
+    { intros m2 A B. rewrite (verify_depends_on_signatures_and_content name kid (pub k) m2 m1 A B).
+      eapply sign_then_verify_value; eauto. }
+    split; [|split]; [| |exact G].
+    - intro u. simpl. apply G.
+      + apply assoc_last_set_other. intro E. pose proof uns_ne_sig as X. rewrite E, bytes_eqb_refl in X. discriminate.
+      + apply strip_members_set_meta. apply is_meta_uns.
+    - simpl. apply G.
+      + rewrite (assoc_last_filter (fun x => negb (bytes_eqb k_unsigned x)) k_signatures m1), uns_ne_sig. reflexivity.
+      + apply strip_members_del_meta. apply is_meta_uns.
+  Qed.
+
+  Lemma wrong_identity name kid k m o :
+    sign_value name kid k (JObj m) = Some o ->
+    (forall p, p <> pub k -> verify_value name kid p o = false) /\
+    (forall name' kid' p, (name', kid') <> (name, kid) ->
+       verify_value name' kid' p o = verify_value name' kid' p (JObj m)) /\
+    (forall name' kid' p, (name', kid') <> (name, kid) -> sig_at name' kid' (JObj m) = None ->
+       verify_value name' kid' p o = false).
+  Proof.
+    intro S.
+    assert (B : forall name' kid' p, (name', kid') <> (name, kid) ->
+       verify_value name' kid' p o = verify_value name' kid' p (JObj m)).
+    { intros. eapply sign_keeps_other_verdicts; eauto. }
+    split; [|split]; [|exact B|].
+    - intros p N. destruct (verify_value name kid p o) eqn:V; [|reflexivity]. exfalso.
+      destruct (sign_preserves _ _ _ _ _ S) as [m' [sm [_ [_ [_ [_ [A _]]]]]]].
+      destruct (verify_honest_signature _ _ _ _ _ _ A V) as [P _]. contradiction.
+    - intros name' kid' p N A. rewrite (B _ _ _ N), verify_value_spec, A. reflexivity.
+  Qed.
+
+  Lemma tamper_canonical name kid k m o v' p :
+    sign_value name kid k (JObj m) = Some o ->
+    sig_at name kid v' = sig_at name kid o ->
+    canon_print (strip v') <> canon_print (strip (JObj m)) ->
+    verify_value name kid p v' = false.
+  Proof.
+    intros S A N.
+    destruct (verify_value name kid p v') eqn:V; [|reflexivity]. exfalso.
+    destruct (sign_preserves _ _ _ _ _ S) as [m' [sm [_ [_ [_ [_ [A' _]]]]]]].
+    rewrite A' in A.
+    destruct (verify_honest_signature _ _ _ _ _ _ A V) as [_ C].
+    apply N. exact C.
+  Qed.
+
+  Lemma verified_key_id_is_listed name kid p m :
+    verify_value name kid p (JObj m) = true ->
+    exists ks, list_key_ids_value name (JObj m) = Some ks /\ In kid ks.
+  Proof.
+    intro V. rewrite verify_value_spec in V.
+    destruct (sig_at name kid (JObj m)) as [s|] eqn:A; [|discriminate].
+    eapply sig_at_is_listed. exact A.
+  Qed.
+End Scheme.
